@@ -24,6 +24,7 @@ pub fn dispatch(op: &str, req: &Value) -> Option<R> {
         "mnemonic" => mnemonic(req),
         "aes" => aes(req),
         "aes_mt" => aes_mt(req),
+        "ecdh_mt" => ecdh_mt(req),
         _ => return None,
     })
 }
@@ -440,6 +441,36 @@ fn digest_chunks(req: &Value) -> R {
         "sha256d" => run::<bsv::hash::sha256d_digest::Sha256d>(&chunks, rev),
         "sha256r" => run::<Sha256r>(&chunks, rev),
         "hash160" => run::<bsv::hash::hash160_digest::Hash160>(&chunks, rev),
+        // FixedOutput::finalize_into / finalize_into_reset into an output array that is NOT zeroed (a re-used buffer)
+        "sha256d_into" | "sha256r_into" | "hash160_into" => {
+            fn into_dirty<D: Update + FixedOutput + digest::Reset + ReversibleDigest + Default>(chunks: &[Vec<u8>], rev: bool) -> Vec<u8> {
+                let mut d = if rev { D::default().reverse() } else { D::default() };
+                for c in chunks {
+                    d.update(c);
+                }
+                let mut out = digest::generic_array::GenericArray::<u8, D::OutputSize>::default();
+                for b in out.iter_mut() {
+                    *b = 0xEE;
+                }
+                d.finalize_into_reset(&mut out);
+                let first = out.to_vec();
+                for c in chunks {
+                    d.update(c);
+                }
+                for b in out.iter_mut() {
+                    *b = 0x77;
+                }
+                d.finalize_into(&mut out);
+                let mut v = first;
+                v.extend_from_slice(&out);
+                v
+            }
+            match st(req, "kind")? {
+                "sha256d_into" => into_dirty::<bsv::hash::sha256d_digest::Sha256d>(&chunks, rev),
+                "sha256r_into" => into_dirty::<Sha256r>(&chunks, rev),
+                _ => into_dirty::<bsv::hash::hash160_digest::Hash160>(&chunks, rev),
+            }
+        }
         // Digest-style chaining: reverse() first, then chain(data) for every chunk
         "sha256d_chain" | "sha256r_chain" | "hash160_chain" => {
             fn chained<D: Update + FixedOutput + ReversibleDigest + Default>(chunks: &[Vec<u8>], rev: bool) -> Vec<u8> {
@@ -546,6 +577,39 @@ fn aes_mt(req: &Value) -> R {
         }
     }
     Ok(json!({"mismatches": total, "first": first, "calls": threads * iters}))
+}
+
+/// Concurrency stress for ECDH: every thread derives shared secrets for the given (private key, public key) pairs over and over,
+/// starting at a different pair, and compares each result with the expected secret supplied by the caller.
+fn ecdh_mt(req: &Value) -> R {
+    let mut items: Vec<(PrivateKey, PublicKey, Vec<u8>)> = vec![];
+    for it in arr(req, "items")? {
+        items.push((PrivateKey::from_bytes(&hx(it, "key")?).map_err(|e| drv(format!("key: {}", e)))?, PublicKey::from_bytes(&hx(it, "pub")?).map_err(|e| drv(format!("pub: {}", e)))?, hx(it, "exp")?));
+    }
+    let threads = un_opt(req, "threads").unwrap_or(8) as usize;
+    let iters = un_opt(req, "iters").unwrap_or(500) as usize;
+    let items = std::sync::Arc::new(items);
+    let mut hs = vec![];
+    for t in 0..threads {
+        let items = items.clone();
+        hs.push(std::thread::spawn(move || {
+            let mut bad = 0u64;
+            let n = items.len();
+            for i in 0..iters {
+                let (k, p, exp) = &items[(i + t * 3) % n];
+                match ECDH::derive_shared_key(k, p) {
+                    Ok(s_) if &s_ == exp => {}
+                    _ => bad += 1,
+                }
+            }
+            bad
+        }));
+    }
+    let mut total = 0u64;
+    for h_ in hs {
+        total += h_.join().unwrap_or(1);
+    }
+    Ok(json!({"mismatches": total, "calls": threads * iters}))
 }
 
 fn aes(req: &Value) -> R {
